@@ -218,6 +218,19 @@ META["C11"] = {
     "require": {"quick": {"modes_covered": 8, "histories_where_the_last_subscriber_left": 5000}, "thorough": {"modes_covered": 8}},
 }
 
+META["C13"] = {
+    "title": "Cold pipelines are lazy and every subscription is independent",
+    "rule": "cases = (cold chain built with the CLONEABLE builder: source in from_iter / counting iterator / of / of_fn / start / defer(nested chain) / create(sync script) / repeat / empty / throw / of_result / of_option / interval.take(k) / scripted from_stream / from_future_result on the virtual clock; 0..n operators (quick n=3, thorough n=5) drawn from the stateful catalogue (scan, last, default_if_empty, distinct*, skip*, take*, pairwise, buffer*, collect, start_with, reduce, count, delay, debounce, throttle(_time) all edges, buffer_with_time, buffer_with_count_and_time, observe_on, delay_subscription, subscribe_on, two-input operators over cold sub-chains), optionally finalize last; 2-3 clones subscribed successively | overlapping (next clone joins while the previous still runs) | nested (next clone subscribed from inside the previous one's first item callback)). Checked: no log event, spawned task or timer before the first subscription; source closures called once per subscription; every subscription's (virtual-time-relative) trace equals the first one's; finalize runs once per ended subscription. FIFO scheduler model (equal deadlines in creation order) so that identical subscriptions behave identically. Non-trivial: at least two subscriptions of a chain with at least one stateful operator; distinct = hash(case).",
+    "assumptions": COMMON_ASSUME + [
+        "timer, share and the flattening operators are not Clone-able (TimerObservable / MergeAllOp are not Clone; share is shared by design) and are not part of this check",
+    ],
+    "technique": "runtime monitoring: counters inside source closures / iterators / scripted futures, trace equality between subscriptions of clones of one real pipeline on a virtual clock",
+    "level_text": "Exploration over sampled cold chains and three subscription patterns.",
+    "level_note": "Trusted: cloneable builder (library's CloneableBoxOp), virtual clock, arena executor.",
+    "design_ref": "DESIGN.md §5 C13",
+    "require": {"quick": {"operators_covered": 60, "nested": 10000, "overlapping": 10000}, "thorough": {"operators_covered": 60}},
+}
+
 
 # properties without a check yet are listed here with the reason; the list shrinks as checks land
 ALL_IDS = ['C01', 'C02', 'C03', 'C04', 'C05', 'C06', 'C07', 'C08', 'C09', 'C10', 'C11', 'C12', 'C13', 'C14', 'C15', 'C16', 'C17', 'C18', 'C19', 'C20']
